@@ -1,6 +1,8 @@
 N = {"quick": 400, "thorough": 12000}
 EXHAUSTIVE = {"quick": False, "thorough": True}
-RULE = ("random cases: 8 % exercise Level's derived Ord / PartialEq (2-8 pairs over 8 values incl. 0, 0.0, 1, 1.0, negatives; cmp, ==, <, <=, >, >=, "
+RULE = ("committed corpus (corpus/C05M: the inputs of review A - a clean book with a negative amount on which volume_weighed_mid_price panics, the "
+        "same through the manager, -0 amounts, 100 / 100.0 / 100.00 as one price, 24 levels at one price, repeated keys / insert / insert on a single "
+        "map) + random cases: 8 % exercise Level's derived Ord / PartialEq (2-8 pairs over 8 values incl. 0, 0.0, 1, 1.0, negatives; cmp, ==, <, <=, >, >=, "
         "max, min, partial_cmp, Vec::sort of 0-12 levels); 92 % allocate 1-4 Arc<RwLock<OrderBook>> cells (OrderBook::default() or OrderBook::new on a "
         "clean or an arbitrary body: 0-12 (thorough 0-16) unsorted levels per side over a grid of 2-7 (thorough 2-10) prices at 6 scales incl. negative "
         "prices, 10/30/60 % zero amounts written 0 / 0.0 / 0.000, duplicate prices; time_engine absent, 0, -1 ms or one of 5 close timestamps), build an "
@@ -19,17 +21,28 @@ ASSUMPTIONS = [
     "unless the probe compares Greater, one final comparison); std documents the hit among equal elements as unspecified - the transcription fixes it "
     "to the last equal level, which the correspondence checks on duplicate-price books on every run (the exhaustive tier enumerates all of them up to "
     "4 levels). Nothing proved about strictly ordered books depends on that choice (binary_search_is_scan)",
-    "sort_unstable_by is modelled as a stable sort. Proved: for input with pairwise distinct prices every sorting algorithm gives the model's result, "
-    "and for any input the price sequence is determined (new_sort_determined); only the order among equal-priced levels is the algorithm's choice - "
-    "std's unstable sort is an insertion sort (stable) up to 20 elements, and the generators keep every level list that may contain a duplicate price "
-    "at <= 16 levels (longer lists have distinct prices)",
+    "the constructors sort with slice::sort_by (books/mod.rs:154, :182; /repo at 911b9f8 'sort order book levels stably'), which std documents as "
+    "stable; the model's sortLevels is List.mergeSort, a stable sort as well, so equal-priced levels keep their input order on both sides for lists of "
+    "any length (new_sort_stable; corpus/C05M stable_sort_24_equal_prices: 24 levels at one price). The earlier caveat (sort_unstable_by modelled as a "
+    "stable sort, duplicate-price lists kept at <= 16 levels) is obsolete; that the generators still draw at most 12 / 16 levels for lists that may "
+    "repeat a price is a size choice, not a soundness condition. new_sort_determined (what is fixed by 'a permutation in price order' alone) is kept",
     "the constructor does not de-duplicate prices and does not drop zero amounts (its documentation promises only sorting): "
     "OrderBook::new(1, None, [(100,1),(100,2)], []) holds two bid levels at 100, later updates act on only one of them, only a Snapshot clears the "
     "duplicate; OrderBook::new(1, None, [], [(101,0)]) holds an ask of amount 0 which is the best ask. C05's strict invariant therefore needs clean "
     "Snapshot / constructor input (reachable_well_formed); for arbitrary input the weak order, the per-price level counts and the price bag are "
     "proved instead (reachable_weakly_ordered, upsert_level_counts, manager_refines_spec)",
-    "Decimal is an exact rational; volume_weighed_mid_price is compared to 1e-18 and its Decimal division by zero (two best levels with amounts summing "
-    "to 0: only after a zero-amount constructor input, or with negative amounts) is modelled as a panic; generated amounts are >= 0, prices may be negative",
+    "Decimal is an exact rational (Rat): rounding to 28 significant digits and OVERFLOW of the 96-bit Decimal mantissa are outside the model. In "
+    "particular mid_price ((bid + ask) / 2, books/mod.rs:301-303) and volume_weighted_mid_price (two products, a sum, a quotient, :309-312) panic in "
+    "the code when an intermediate sum / product exceeds Decimal::MAX, where the model and the spec compute the exact value. Witness (review A, C05M "
+    "item 2; audit/sub/scratch_A/C05M_edge.ops): `cell 2 - | 79228162514264337593543950335:1 | 79228162514264337593543950335:1` - the code panics "
+    "in mid_price (rust_decimal 'Addition overflowed': Decimal::MAX + Decimal::MAX; the harness prints `panic` / `# panicmsg addition-overflowed`), model and spec print mid ~79228162514264337593543950335. Not in the corpus "
+    "(it fails by design); generated prices have at most 7 digits, amounts at most 7. volume_weighed_mid_price is compared to 1e-18",
+    "the Decimal DIVISION BY ZERO of volume_weighted_mid_price is modelled, as a panic: the call panics iff both sides are non-empty and the two best "
+    "amounts sum to zero (vw_mid_panics_iff); every statement about its value carries the explicit guard `not vwMidPanics` (spec_observables, "
+    "vw_mid_value) and the spec prints `vw panic` from its own condition on the price -> amount maps (vwMidUndefined). The guard is NOT implied by clean "
+    "input: OrderBook::new(1, None, [(100,1)], [(101,-1)]) is clean and panics (vw_mid_witness, corpus/C05M vw_clean_negative_amount); it is implied by "
+    "positive amounts (vw_mid_safe_of_positive_amounts). Generated amounts are >= 0 (so generated panics need a zero-amount constructor input); negative "
+    "amounts come from the corpus only; prices may be negative",
     "time_engine is an integer number of milliseconds (DateTime<Utc> range and sub-millisecond precision not modelled)",
     "Arc<RwLock<OrderBook>> cells are indices into a list of books; the manager is run on a current-thread runtime over a finite stream, so lock "
     "contention with concurrent readers / writers and fairness are not modelled; tracing output (warn on Reconnecting / unknown instrument, debug on "
@@ -37,7 +50,11 @@ ASSUMPTIONS = [
     "FnvHashMap is an association list with one entry per key (insert replaces); the iteration order of keys() is unspecified in Rust and is compared "
     "sorted",
     "init_multi_order_book_l2_manager (needs live exchange connections) is modelled only as far as its map construction goes (multiOf: later "
-    "duplicate keys win, every book starts as OrderBook::default()) and is not driven; serde (de)serialisation of OrderBook / Level is out of scope",
+    "duplicate keys win, every book starts as OrderBook::default()) and is not driven",
+    "serde is out of scope, and with it one way of obtaining a book: OrderBook / OrderBookSide derive Deserialize (books/mod.rs:16, :121), which fills "
+    "`levels` as they stand in the document without sorting. `Reachable` (the books of reachable_weakly_ordered / reachable_well_formed) has constructors "
+    "for default, new, update with Snapshot / Update events built by new, and snapshot(depth) only - no Deserialize: a deserialised book may hold its "
+    "sides in any order and no invariant is claimed for it",
     "there is no OrderBookSide::best() / OrderBookSide::new() in this tree: best = levels().first() (what mid_price uses), construction = "
     "OrderBookSide::bids / ::asks",
 ]
@@ -66,29 +83,45 @@ TECHNIQUE = ("Lean 4: loop invariant of the transcribed slice::binary_search_by;
              "over histories and over the inductively defined set of reachable books; per-cell fold of OrderBookL2Manager::run over shared cells "
              "(frame, per-instrument, concatenation); refinement to an executable per-cell specification; correspondence with the real Level, "
              "OrderBook, OrderBookMapSingle/Multi and OrderBookL2Manager on a tokio runtime")
-LEVEL_TEXT = ("Proof (sub-check of C05). Lean theorems over the model of lean/BarterModel/Model/BookManager.lean (Props/C05M.lean), all full strength "
-              "(no _partial), for all level lists (unsorted, duplicate prices, zero amounts), maps (keys may share cells) and finite streams: "
+LEVEL_TEXT = ("Proof (sub-check of C05). Lean theorems over the model of lean/BarterModel/Model/BookManager.lean (Props/C05M.lean: 44 theorems, of which "
+              "42 are results and 2 are definitional restatements), all full strength (no _partial), for all level lists (unsorted, duplicate prices, "
+              "zero or negative amounts), maps (keys may share cells) and finite streams: "
               "Level's derived order is the lexicographic order on (price, amount), lawful, consistent with ==, max/min are bounds "
               "(level_order_is_lexicographic, level_order_lawful, level_max_min, level_sort_determined); the transcribed binary_search_by returns the "
               "last equal level or the unique insertion point on every weakly ordered side (binary_search_correct) and upsert_single with it equals "
               "the C05 scan model on strictly ordered sides, turning C05's scan assumption into a theorem (binary_search_is_scan, agrees_with_c05_model); "
               "weak order and the per-price level counts of the four documented scenarios hold on every side (upsert_keeps_weak_order, "
               "upsert_level_counts); OrderBook::new keeps exactly the given levels in weak book order for every input, is strict iff the input prices are "
-              "distinct, is determined by its specification and idempotent (new_any_input, new_strict_iff_input_distinct, new_sort_determined, "
-              "new_idempotent); a Snapshot replaces all four fields and makes earlier history irrelevant, an Update copies sequence and time_engine "
-              "(update_snapshot, update_update, snapshot_resets_history, fields_of_last_event); every book reachable through the public API is weakly "
-              "ordered, and well-formed when constructor / Snapshot input is clean (reachable_weakly_ordered, reachable_well_formed, "
+              "distinct, keeps equal-priced levels in input order (stable, as slice::sort_by), is determined by its specification where prices are "
+              "distinct, and idempotent (new_any_input, new_strict_iff_input_distinct, new_sort_stable, new_sort_determined, new_idempotent); earlier "
+              "history is irrelevant after a Snapshot, sequence and time_engine are those of the last event (snapshot_resets_history, "
+              "fields_of_last_event); every book reachable through the public constructors / update / snapshot(depth) - Deserialize excluded - is "
+              "weakly ordered, and well-formed when constructor / Snapshot input is clean (reachable_weakly_ordered, reachable_well_formed, "
               "strict_iff_weak_and_distinct); snapshot(depth) is the prefix, composes to the smaller depth, best = head is an extremum "
-              "(snapshot_is_prefix, snapshot_laws, best_is_extremum); OrderBookMapSingle/Multi find / keys / insert laws (single_map, multi_insert, "
-              "multi_of_pairs, keys_iff_find); the manager: the book of a cell after any stream is the fold of exactly the events resolving to it, per "
+              "(snapshot_is_prefix, snapshot_laws, best_is_extremum); volume_weighed_mid_price panics (Decimal division by zero) iff both sides are "
+              "non-empty and the best amounts sum to zero, under the guard its value is the division-free micro-price, positive amounts imply the guard, "
+              "clean input does not (vw_mid_panics_iff, vw_mid_value, vw_mid_safe_of_positive_amounts, vw_mid_witness); OrderBookMapSingle/Multi "
+              "find / keys / insert laws and their refinement to the log of associations, last one in force (single_map, multi_insert, multi_of_pairs, "
+              "keys_iff_find, map_refines_log); the manager: the book of a cell after any stream is the fold of exactly the events resolving to it, per "
               "instrument when no cell is shared, unknown instruments and Reconnecting change nothing, runs concatenate, all books keep the weak (resp. "
               "C05) invariant and are C05 runs in C05's domain (manager_per_cell, manager_per_instrument, manager_frame, manager_resumes, "
               "manager_keeps_invariants, manager_cell_is_c05_run); refinement of books and of the whole manager to the executable per-cell "
-              "specification - copied fields, price bag in book order, mid-price, and the C05 map specification while clean (spec_of_new, "
-              "spec_observables, manager_refines_spec, spec_initial). The model is tied to the code by running the same cases through the real code "
-              "on every run.")
+              "specification - copied fields, price bag in book order, mid-price, and while clean the C05 map specification incl. the panic-aware "
+              "volume-weighted mid-price (its value under the explicit guard `not vwMidPanics`), with the key resolution either of the concrete map or "
+              "of the association log the spec driver keeps (spec_of_new, spec_observables, manager_refines_spec, manager_refines_log_spec, "
+              "spec_initial). Definitional / bookkeeping, not results: update_snapshot and update_update are the defining equations of the model's "
+              "update (rfl), as are the sequence / time_engine conjuncts of new_any_input. The model is tied to the code by running the same cases "
+              "through the real code on every run.")
 LEVEL_NOTE = ("Trusted: Lean kernel; axioms propext/Classical.choice/Quot.sound only; the hand-written model incl. the transcription of "
-              "core::slice::binary_search_by (sampled correspondence: 400 quick / 12k random + 3 388 small-scope exhaustive thorough); harness, driver, "
-              "orchestrator. Not a contradiction of the documentation but worth knowing: OrderBook::new neither de-duplicates nor drops zero-amount "
-              "levels, and an upsert touches only one of several equal-priced levels. Exact rationals instead of rust_decimal; lock contention, "
-              "tracing output, serde and init_multi_order_book_l2_manager's network part not modelled.")
+              "core::slice::binary_search_by (sampled correspondence: corpus + 400 quick / 12k random + 3 388 small-scope exhaustive thorough); harness, "
+              "driver, orchestrator. Spec side of the oracle: every key the spec prints is computed from the ops by definitions written from the "
+              "documentation - h/bp/ap/mid from the price bags, b/a/bb/ba/vw/snap from the price -> amount maps of C05 (clean cells only; `vw<c> panic` "
+              "from vwMidUndefined on the maps), found/keys and the routing of run from the association log (AssocLog: no BookMap, no lookup / "
+              "hashInsert on the spec side; tied to the concrete maps by map_refines_log / manager_refines_log_spec), cmp/eq/rel from levelLtSpec; "
+              "max/min/sorted/ev/def (except default cells) and everything about dirty cells beyond h/bp/ap/mid are correspondence-only (the spec prints "
+              "nothing). The event payloads given to the spec are the constructed books (OrderBook::new of the op's levels, i.e. the model's sortLevels), "
+              "as in the hypotheses of the refinement theorems. Not a contradiction of the documentation but worth knowing: OrderBook::new neither "
+              "de-duplicates nor drops zero-amount levels, an upsert touches only one of several equal-priced levels, and volume_weighed_mid_price "
+              "panics when the two best amounts cancel (possible on a clean book with a negative amount). Exact rationals instead of rust_decimal "
+              "(rounding and overflow, e.g. of mid_price near Decimal::MAX, not modelled); lock contention, tracing output, serde / Deserialize and "
+              "init_multi_order_book_l2_manager's network part not modelled.")
